@@ -454,15 +454,16 @@ func (h *Hub) topicUnreg(sess *Session, topic string, msg *ClientComMessage, rea
 				return err
 			}
 
-			tcat := topicCat(topic)
 			if len(subs) == 0 {
-				if tcat == types.TopicCatP2P {
+				// The name comes from the client and may be ill-formed: do not categorize it before it's known to exist.
+				if strings.HasPrefix(topic, "p2p") {
 					// No subscribers: delete.
 					store.Topics.Delete(topic, false, true)
 				}
 				sess.queueOut(InfoNoActionReply(msg, now))
 				return nil
 			}
+			tcat := topicCat(topic)
 
 			// Find subscription of the current user.
 			var sub *types.Subscription
